@@ -25,6 +25,12 @@ def seeds_for(pid=None):
         if pid is None or m.get("breaks_property") == pid:
             rebased = meta.parent / "patch_current_tree.diff"  # the same change re-based onto the tree after later fix commits
             out.append((m, rebased if rebased.exists() else meta.parent / "patch.diff"))
+    # behaviour-preserving refactorings: the check must NOT report anything on them (false-alarm test)
+    for res in sorted((VERIF / "seeded").glob("refactor_*/result.json")):
+        r = json.loads(res.read_text())
+        for p in sorted(r.get("check_exit_codes", {})):
+            if pid is None or p == pid:
+                out.append((dict(id=r["id"], breaks_property=p, expect="clean"), res.parent / "patch.diff"))
     return out
 
 
@@ -40,6 +46,10 @@ def run_seed(m, patch, tier="quick"):
         env = dict(os.environ, PYVC_REPO=str(tmp), PYVC_OUT=str(tmp / "out"), VERIF_TIER="quick", PYVC_TIMEOUT_S="8")
         r = subprocess.run([sys.executable, "-m", "pyvc.check", pid, "--tier", "quick", "--no-selftest"], cwd=VERIF, env=env, capture_output=True, text=True, timeout=3000)
         viol = [ln for ln in r.stdout.splitlines() if ln.startswith("VIOLATION")]
+        if m.get("expect") == "clean":
+            if r.returncode == 0 and not viol:
+                return dict(seed=m["id"], property=pid, status="clean", detail="harmless refactoring: nothing reported (exit 0)")
+            return dict(seed=m["id"], property=pid, status="FALSE-ALARM", detail=f"exit {r.returncode}: " + (viol[0][:200] if viol else r.stdout[-300:]))
         if r.returncode == 1 and viol:
             return dict(seed=m["id"], property=pid, status="detected", detail=viol[0][:260], violations=len(viol))
         return dict(seed=m["id"], property=pid, status="MISSED", detail=f"exit {r.returncode}: " + r.stdout[-300:])
@@ -65,8 +75,8 @@ def main():
         print(f"SELFTEST {r['status']:14s} {r['seed']:14s} {r['property']}  {r['detail'][:200]}")
     if write:  # record of the last full self-test (read by tools/seed_table.py)
         (VERIF / "seeded" / "selftest_last.json").write_text(json.dumps(res, indent=1))
-    missed = [r for r in res if r["status"] == "MISSED"]
-    print(f"{len(res)} seeds: {sum(r['status'] == 'detected' for r in res)} detected, {len(missed)} missed, {sum(r['status'] == 'not-applicable' for r in res)} not applicable")
+    missed = [r for r in res if r["status"] in ("MISSED", "FALSE-ALARM")]
+    print(f"{len(res)} runs: {sum(r['status'] == 'detected' for r in res)} breaking changes detected, {sum(r['status'] == 'clean' for r in res)} harmless refactorings clean, {len(missed)} missed or false alarms, {sum(r['status'] == 'not-applicable' for r in res)} not applicable")
     return 1 if missed else 0
 
 
